@@ -234,3 +234,13 @@ func (w *World) countedCall(fi *FuncInfo) bool {
 	}
 	return false
 }
+
+// countedExt: "count storage.Storage.SetMeta" style declarations for interface / external methods.
+func (w *World) countedExt(name string) bool {
+	for _, d := range w.Specs.Decls {
+		if d.Kind == "count" && strings.TrimSpace(d.Text) == name {
+			return true
+		}
+	}
+	return false
+}
